@@ -233,7 +233,22 @@ def _scratch(m):
     shutil.copytree(os.path.join(REPO, "symmray"), os.path.join(d, "symmray"))
     p = os.path.join(d, m["file"])
     src = open(p, "rb").read()
-    open(p, "wb").write(src[:m["start"]] + m["new"].encode() + src[m["end"]:])
+    s0, e0 = m["start"], m["end"]
+    oldb = m["old"].encode()
+    if src[s0:e0] != oldb:
+        # /repo moved on since the enumeration (a fix: commit): re-locate the
+        # mutation point as the occurrence of the old text closest to where it was
+        best = None
+        k = src.find(oldb)
+        while k != -1:
+            if best is None or abs(k - s0) < abs(best - s0):
+                best = k
+            k = src.find(oldb, k + 1)
+        if best is None or abs(best - s0) > 4000:
+            shutil.rmtree(d, ignore_errors=True)
+            raise RuntimeError(f"mutant {m['id']} no longer applies")
+        s0, e0 = best, best + len(oldb)
+    open(p, "wb").write(src[:s0] + m["new"].encode() + src[e0:])
     return d
 
 
@@ -382,6 +397,17 @@ def main(argv):
             want = {int(x) for x in argv[argv.index("--ids") + 1].split(",")}
             quiet = [m for m in quiet if m["id"] in want]
         _pool(run_engines, quiet, jobs, "deeper.jsonl", (runs, cap))
+    elif cmd == "one":
+        # one mutant by id against the given properties (development aid).
+        # NOTE: offsets refer to the source the enumeration saw; re-enumerate
+        # after /repo changes.
+        ms = {m["id"]: m for m in _load("mutants.jsonl")}
+        for i in argv[1].split(","):
+            m = ms[int(i)]
+            r = run_engines(m, runs, cap)
+            print(f"#{m['id']} {m['file']}:{m['line']} {m['func']} {m['old']!r} -> {m['new']!r}")
+            for p_, v in r["props"].items():
+                print("   ", p_, {k: v[k] for k in v if k != "prop"})
     elif cmd == "report":
         ms = {m["id"]: m for m in _load("mutants.jsonl")}
         ts = {r["id"]: r for r in _load("tests.jsonl")}
